@@ -67,8 +67,8 @@ Definition wtuple_eqb (a b : wtuple) : bool :=
   match a, b with (k, e, c), (k', e', c') => bytes_eqb k k' && Z.eqb e e' && Bool.eqb c c' end.
 
 (* ---------- spec side ---------- *)
-Definition spec_obs_ok (mp mk : nat) (p : bytes) (o : obs) : bool :=
-  match grammarb mp mk p, o with
+Definition spec_obs_ok_with (hb : ascii -> bool) (mp mk : nat) (p : bytes) (o : obs) : bool :=
+  match grammarb_with hb mp mk p, o with
   | Some (n, e), OA n' e' => N.eqb (N.of_nat n) n' && N.eqb (N.of_nat e) e'
   | None, OR _ => true
   | _, _ => false
@@ -79,9 +79,11 @@ Definition default_limit : nat := N.to_nat 65535.
 Definition pair_eqb (a b : bytes * bytes) : bool :=
   bytes_eqb (fst a) (fst b) && bytes_eqb (snd a) (snd b).
 
-Definition route_ok (p : bytes) (vals : list bytes) (req : bytes) (found : bool) (params : list (bytes * bytes)) : bool :=
+Definition spec_obs_ok := spec_obs_ok_with ldh.
+
+Definition route_ok_with (hb : ascii -> bool) (p : bytes) (vals : list bytes) (req : bytes) (found : bool) (params : list (bytes * bytes)) : bool :=
   let ts := tokenize p in
-  match grammarb default_limit default_limit p with
+  match grammarb_with hb default_limit default_limit p with
   | None => false                                   (* harness only sends accepted patterns *)
   | Some _ =>
     bytes_eqb req (subst ts vals) && (length vals =? tok_wilds ts) &&
@@ -142,19 +144,29 @@ Definition model_agrees (c : case) : bool :=
   | CBlock prefix lo hi dfull _ => N.eqb (fst (fst (block_digests prefix lo hi))) dfull
   end.
 
-Definition spec_ok (c : case) : bool :=
+Definition spec_ok_with (hb : ascii -> bool) (c : case) : bool :=
   match c with
   | CPat p o _ =>
     (length (expand o) =? length limit_pairs) &&
-    forallb (fun lo => spec_obs_ok (fst (fst lo)) (snd (fst lo)) p (snd lo)) (combine limit_pairs (expand o))
-  | CPat1 mp mk p o _ => spec_obs_ok (N.to_nat mp) (N.to_nat mk) p o
+    forallb (fun lo => spec_obs_ok_with hb (fst (fst lo)) (snd (fst lo)) p (snd lo)) (combine limit_pairs (expand o))
+  | CPat1 mp mk p o _ => spec_obs_ok_with hb (N.to_nat mp) (N.to_nat mk) p o
   | CWild key o =>
     match o with
     | Some l => bytes_eqb (render (tokenize key)) key && list_eqb wtuple_eqb l (wild_spec 0 (tokenize key))
     | None => false
     end
-  | CRoute p vals req found params => route_ok p vals req found params
+  | CRoute p vals req found params => route_ok_with hb p vals req found params
   | CBlock prefix lo hi _ derased => N.eqb (snd (fst (block_digests prefix lo hi))) derased
+  end.
+(* the specification: hostname labels are LDH *)
+Definition spec_ok := spec_ok_with ldh.
+(* finding c10_underscore_hostname (fox.go:784, `|| c == '_'`): a case is attributed to it
+   when it fails the specification but satisfies the same specification with '_' admitted
+   in hostname labels (the language parseRoute is proved to accept, Props_C10.parseRoute_accepts_exactly) *)
+Definition known_underscore (c : case) : bool :=
+  match c with
+  | CBlock _ _ _ _ _ => false
+  | _ => negb (spec_ok c) && spec_ok_with ldh_or_underscore c
   end.
 
 Definition out_of_fuel (c : case) : bool :=
@@ -167,14 +179,15 @@ Definition out_of_fuel (c : case) : bool :=
   end.
 
 (* evaluated once per case by the case files *)
-Definition verdict (c : case) : bool * bool * bool :=   (* (mismatch, violation, out of fuel) *)
+Definition verdict (c : case) : bool * bool * bool * bool :=   (* (mismatch, violation, out of fuel, known) *)
   match c with
   | CBlock prefix lo hi dfull derased =>
     let '(hm, hs, oof) := block_digests prefix lo hi in
-    (negb (N.eqb hm dfull), negb (N.eqb hs derased), oof)
-  | _ => (negb (model_agrees c), negb (spec_ok c), out_of_fuel c)
+    (negb (N.eqb hm dfull), negb (N.eqb hs derased), oof, false)
+  | _ => (negb (model_agrees c), negb (spec_ok c), out_of_fuel c, known_underscore c)
   end.
-Definition verdicts (cs : list case) : list (bool * bool * bool) := map verdict cs.
-Definition mismatches (vs : list (bool * bool * bool)) : list nat := true_idx (map (fun v => fst (fst v)) vs).
-Definition spec_violations (vs : list (bool * bool * bool)) : list nat := true_idx (map (fun v => snd (fst v)) vs).
-Definition fuel_outs (vs : list (bool * bool * bool)) : list nat := true_idx (map (fun v => snd v) vs).
+Definition verdicts (cs : list case) : list (bool * bool * bool * bool) := map verdict cs.
+Definition mismatches (vs : list (bool * bool * bool * bool)) : list nat := true_idx (map (fun v => fst (fst (fst v))) vs).
+Definition spec_violations (vs : list (bool * bool * bool * bool)) : list nat := true_idx (map (fun v => snd (fst (fst v))) vs).
+Definition fuel_outs (vs : list (bool * bool * bool * bool)) : list nat := true_idx (map (fun v => snd (fst v)) vs).
+Definition known_underscores (vs : list (bool * bool * bool * bool)) : list nat := true_idx (map (fun v => snd v) vs).
